@@ -501,6 +501,90 @@ def r15c(P, R):
                 R.undecided("R15-c", key, "%s skips elements under a condition this rule does not read (literals %s)" % (f.path, sorted(lits)), loc=f.loc())
 
 
+def shadowed_fns(P, crate):
+    """functions of `crate` that the fact loader dropped because another function has the same normalised path (two impls of one
+    generic trait for one type, e.g. `Extend<(Str, TypeDefinition)>` and `Extend<(Str, DirectiveDefinition)>` for SchemaBuilder)"""
+    import glob
+    import json
+    import os
+    from facts import Fn
+    out = []
+    try:
+        d, _ = harness.ensure_facts()
+        for fp in sorted(glob.glob(os.path.join(d, "*.json"))):
+            j = json.load(open(fp))
+            if j.get("crate") != crate:
+                continue
+            seen = set()
+            for raw in j["fns"]:
+                g = Fn(raw, crate)
+                if g.path in seen and not g.derived:
+                    out.append(g)
+                seen.add(g.path)
+    except (OSError, ValueError, KeyError, SystemExit):
+        pass
+    return out
+
+
+MEMBERSHIP = {"contains_key", "contains", "get", "get_mut", "entry", "get_key_value", "get_index_of", "get_full"}
+
+
+def r15f(P, R):
+    """the schema builder registers a definition of one namespace by looking at that namespace: the vacancy test that guards an
+    insert into map M of the builder (an enclosing `if`, or an early `continue`/`return` before it) must consult M.  A test of a
+    sibling map drops a directive named like a type (or a type named like a directive) — and the two routes register types and
+    directives in different orders, so they disagree on which one survives."""
+    fns = [f for f in P.fns.values() if f.path.startswith(("graphql_type_system::builder", "<graphql_type_system::builder")) and not f.derived and "::tests" not in f.path]
+    fns += [f for f in shadowed_fns(P, "graphql_type_system") if "builder" in f.path]
+    n = 0
+    seen_keys = {}
+    for f in sorted(fns, key=lambda g: (g.path, g.line)):
+        acc = f.nodes()
+        for i, (x, _) in enumerate(acc):
+            if not (x.get("k") == "MethodCall" and x["method"] in ("insert", "or_insert", "or_insert_with") and x["args"]):
+                continue
+            recv = x["recv"]
+            target = None
+            for y in subnodes(recv):
+                if y.get("k") == "Field" and y.get("adt") and any(w in norm(y.get("t") or x.get("recv_ty") or "") for w in ("HashMap", "IndexMap", "BTreeMap")):
+                    target = (norm(y["adt"]), y["field"])
+                    break
+            if target is None or not any(w in norm(x.get("recv_ty") or "") for w in ("HashMap", "IndexMap", "BTreeMap", "Entry")):
+                continue
+            key_locals = {y.get("local") for y in subnodes(x["args"][0]) if y.get("k") == "Path" and "local" in y}
+            if x["method"] != "insert":   # entry(key).or_insert(..): the key is the entry's
+                key_locals = {y.get("local") for y in subnodes(recv) if y.get("k") == "Path" and "local" in y and y.get("name") != "self"}
+            # guards: conditions of enclosing ifs, and of earlier ifs of the same function that leave (continue/return/break)
+            conds = [c[1]["cond"] for c in enclosing_contexts(f, i) if c[0] in ("if-then", "if-else")]
+            for j in range(i):
+                y = acc[j][0]
+                if y.get("k") == "If" and not any(z is x for z in subnodes(y)) and any(z.get("k") in ("Continue", "Ret", "Break") for z in subnodes(y["then"])):
+                    conds.append(y["cond"])
+            tested = set()
+            for cnd in conds:
+                for y in subnodes(cnd):
+                    if y.get("k") == "MethodCall" and y["method"] in MEMBERSHIP and y["args"] and \
+                            key_locals & {z.get("local") for a_ in y["args"] for z in subnodes(a_) if z.get("k") == "Path" and "local" in z}:
+                        for z in subnodes(y["recv"]):
+                            if z.get("k") == "Field" and z.get("adt") and norm(z["adt"]) == target[0]:
+                                tested.add(z["field"])
+            if not tested:
+                continue
+            n += 1
+            key = "insert-guard:%s.%s" % (target[0].split("::")[-1], target[1])
+            seen_keys[key] = seen_keys.get(key, 0) + 1
+            if seen_keys[key] > 1:
+                key += "#%d" % seen_keys[key]
+            if target[1] in tested:
+                R.holds("R15-f", key, "the insert into %s is guarded by a look-up in %s" % (target[1], target[1]), loc=f.loc())
+            else:
+                R.violated("R15-f", key, "%s (line %s) inserts into %s.%s, but the vacancy test that guards the insert looks the key up in %s: a definition is dropped "
+                           "when its name is taken in the *other* namespace (e.g. a directive named like a type) - and the SDL and JSON routes register types and "
+                           "directives in different orders" % (f.path, x["s"][0] if isinstance(x.get("s"), list) else "?", target[0].split("::")[-1], target[1], "/".join(sorted(tested))), loc=f.loc())
+    if not n:
+        R.holds("R15-f", "insert-guard:none", "no insert of the schema builder is guarded by a look-up in another map")
+
+
 def r15d(P, R):
     """root operation types are carried under their own operation on every route"""
     f0 = P.fn(SEM + "type_system_to_ast::type_system_to_ast")
@@ -686,7 +770,7 @@ def r15e(P, R):
     R.floor("R15-e", "flag uses", n, 4)
 
 
-RULES = [("R15-a", r15a), ("R15-b", r15b), ("R15-c", r15c), ("R15-d", r15d), ("R15-e", r15e)]
+RULES = [("R15-a", r15a), ("R15-b", r15b), ("R15-c", r15c), ("R15-d", r15d), ("R15-e", r15e), ("R15-f", r15f)]
 EXPLANATION = (
     "Route symmetry, the decidable part of C15: (R15-a) every match over LoadedSchema in generate reaches the same printers on both "
     "routes, the introspection arm differing only by type_system_to_ast, operations always get a Schema (ast_to_type_system for SDL); "
